@@ -44,5 +44,8 @@ def run(chk):
     lines += gen_shapes.make_targeted(chk.seed * 104729 + 6, 600 if chk.quick else 6000, KINDS)
     # rational / double boxes with half-open intervals get a stream of their own
     lines += gen_shapes.make_targeted(chk.seed * 1299709 + 8, 160 if chk.quick else 2000, ["box_q"], start=100000, which=["open_box", "open_box", "diff_eq"])
+    # dense family for upper_bound_assign_if_exact (and the integer variant): pairs of small shapes with end points on a tiny
+    # grid, sharing / adjacent / crossing faces, both argument orders; and swaps / assignments between lazy states
+    lines += gen_shapes.make_targeted(chk.seed * 15485863 + 18, 1600 if chk.quick else 12000, ["oct_q", "oct_q", "bds_q", "box_q"], start=200000, which=["ubie", "ubie", "ubie", "swap"])
     out, byid = shapescheck.run_cases(chk, "C04", shapescheck.corpus_cases("C04") + lines, "c04", owner)
     shapescheck.account(chk, out, byid, "C04_* (tightness of closed forms, exactness of the comparisons, best abstraction) + verified equivalence / supremum")
